@@ -821,14 +821,16 @@ def differ_pairs(rng, S, gen):
     fl = sites(S, lambda x: x["t"] == "float")
     if fl:
         p = rng.choice(fl)
-        parent = get_at(S["model"], p[:-3]) if len(p) >= 3 else None
+        in_attr = len(p) >= 3 and p[-3] in ("attrs", "items", "extras", "members")
+        parent = get_at(S["model"], p[:-3]) if in_attr else None
         if not (parent is not None and parent["t"] == "inst" and parent["cls"] == "PlainEx" and get_at(S["model"], p[:-1])[0] == "q"):
             b = _copy.deepcopy(S)
             set_at(b["model"], p, {"t": "float", "v": hx(bump(unhex(get_at(S["model"], p)["v"]), rng))})
             add("const", b)
         p = rng.choice(fl)
-        parent = get_at(S["model"], p[:-3]) if len(p) >= 3 else None
-        if parent is not None and parent["t"] in ("model", "coll", "tuple") and not is_fixed_model(parent):
+        in_attr = len(p) >= 3 and p[-3] in ("attrs", "items", "extras", "members")
+        parent = get_at(S["model"], p[:-3]) if in_attr else None
+        if parent is not None and parent["t"] in ("model", "coll", "tuple"):
             b = _copy.deepcopy(S)
             b["pool"].append(gen.prior_spec())
             set_at(b["model"], p, {"t": "prior", "ref": len(b["pool"]) - 1})
@@ -1006,3 +1008,290 @@ def value_has(v, tag):
     if v[0] == "obj":
         return any(value_has(x, tag) for _, x in v[2] + v[3])
     return False
+
+
+# ---------------------------------------------------------------------------------------
+# cases of one run
+# ---------------------------------------------------------------------------------------
+def gen_cases(ctx):
+    rng = ctx.rng
+    quick = ctx.tier != "thorough"
+    nbase = 56 if quick else 420
+    cases = []
+    fits = 0
+    for k in range(nbase):
+        gen = Gen(rng, clean=(k % 5 != 0 and k % 5 != 3), max_depth=2 if k % 3 else 3)
+        S = gen.fit()
+        cases.append({"kind": "fit", "spec": S})
+        cases += equal_pairs(rng, S, quick)
+        dp = differ_pairs(rng, S, gen)
+        cases += dp
+        # a sample of the perturbed specifications also goes through the full correspondence
+        for c in rng.sample(dp, min(len(dp), 2 if quick else 3)):
+            cases.append({"kind": "fit", "spec": c["b"]})
+        if fit_eligible(S) and fits < (6 if quick else 40):
+            fits += 1
+            b = with_build(S, route="fit")
+            if b["search"]["cls"] == "DynestyStatic":
+                b["search"]["settings"]["nlive"] = 20
+                a = _copy.deepcopy(S)
+                a["search"]["settings"]["nlive"] = 20
+            else:
+                a = S
+            cases.append({"kind": "pair", "how": "fit", "expect": "same", "a": a, "b": b, "labels": reload_labels(S, "fit")})
+    for _ in range(3 if quick else 20):
+        cases += special_pairs(rng, Gen(rng, clean=True))
+    for _ in range(120 if quick else 1200):
+        cases.append({"kind": "walk", "value": gen_value(rng)})
+    specials = [0.0, -0.0, 5e-9, -5e-9, 1.5e-8, 2.5e-8, 3.5e-8, 0.1 + 0.2, 1e-8, 0.30000000000000004, 1e10 + 0.5, 2.0 ** 53 * 1e-8,
+                4.6e10, 9.3e10, 1e11, 1e15, 1e22, 1e300, -1e300, 1.7976931348623157e308, 5e-324, 1e-300,
+                float("inf"), float("-inf"), float("nan"), 123456789.123456789, -0.999999995, 0.999999995]
+    for v in specials:
+        cases.append({"kind": "round", "v": hx(v)})
+    for _ in range(150 if quick else 3000):
+        r = rng.random()
+        if r < 0.4:
+            v = (rng.randint(-10 ** 9, 10 ** 9) + 0.5) * 1e-8          # near ties
+        elif r < 0.7:
+            v = rng.uniform(-1, 1) * 10 ** rng.randint(-10, 12)
+        else:
+            v = rng.uniform(-100, 100)
+        cases.append({"kind": "round", "v": hx(v)})
+    return cases
+
+
+def case_key(c):
+    return {k: v for k, v in c.items() if k not in ("labels",)}
+
+
+def is_nontrivial(c):
+    k = c["kind"]
+    if k == "fit":
+        return nontrivial(c["spec"])
+    if k == "pair":
+        return nontrivial(c["a"]) or c["how"].startswith(("search", "tag", "nonid"))
+    if k == "walk":
+        return c["value"][0] in ("seq", "tup", "dict", "idict", "obj", "gridsearch", "prior")
+    if k == "round":
+        return True
+    return False
+
+
+def oracle(c, r):
+    """Direct statement of C07 on the implementation's outputs; None or a message."""
+    k = c["kind"]
+    if k == "fit":
+        if "raised" in r:
+            return "identifier of a valid fit raised %s" % r["raised"]
+        if not r.get("md5_ok"):
+            return "str(identifier) is not the md5 of the joined description"
+        if r.get("paths_identifier") != r["identifier"]:
+            return "search.paths.identifier differs from Identifier([search, model, tag])"
+        return None
+    if k == "pair":
+        a, b = r["a"], r["b"]
+        if "raised" in a:
+            return "identifier of the base fit raised %s" % a["raised"]
+        if c["expect"] == "same":
+            if "raised" in b:
+                return "equal construction (%s): %s while %s the fit's own files" % (c["how"], b["raised"], "reading" if b.get("stage") == "read" else "writing/reading")
+            if b["identifier"] != a["identifier"]:
+                return "equal construction (%s) has a different identifier" % c["how"]
+            if b.get("route") in ("files", "fit"):
+                if b.get("folder") != b.get("paths_identifier") or not b.get("folder_exists"):
+                    return "output folder is not named by the identifier"
+                if b.get("paths_identifier") != a["identifier"]:
+                    return "paths.identifier of the written fit differs from the identifier"
+            if b.get("route") == "reload":
+                pc = b.get("prior_count")
+                if pc and pc[0] != pc[1]:
+                    return "reload changed the number of free parameters (%s -> %s)" % tuple(pc)
+                if b.get("reloaded_tag") != c["a"].get("tag"):
+                    return "reload changed the unique tag"
+            return None
+        if "raised" in b:
+            return "identifier of the perturbed fit raised %s" % b["raised"]
+        if a["identifier"] == b["identifier"]:
+            return "two different fits (%s) have the same identifier" % c["how"]
+        return None
+    if k == "walk":
+        if "raised" in r:
+            return None
+        return None if r.get("md5_ok") else "str(identifier) is not the md5 of the joined description"
+    if k == "round":
+        v = unhex(c["v"])
+        if v != v:
+            return None if r.get("raised") == "ValueError" else "nan did not raise ValueError"
+        if "raised" in r:
+            return "float %r raised %s" % (v, r["raised"])
+        exp = repr(float(ref_round(v)))
+        return None if r["hash_list"] == [exp] else "float %r is described as %s, expected %s (rounding to 1e-8)" % (v, r["hash_list"], exp)
+    return "unknown kind"
+
+
+def coq_terms(c, r):
+    """list of Coq `case` terms for one implementation result"""
+    k = c["kind"]
+    out = []
+    if k == "fit" and "raised" not in r and r.get("abs_model"):
+        S = c["spec"]
+        fl = spec_floats(S, set())
+        abs_floats(r["abs_model"], fl)
+        abs_floats(r["abs_search"], fl)
+        if all(ascii_ok(x) for x in r["hash_list"]):
+            out.append("CFit %s %s %s %s %s %s %s" % (
+                str_table(fl), search_term(S["search"]), node_term(S["model"], S["pool"], S.get("build", {}).get("rename")),
+                copt(S.get("tag"), cstr), obj_term(r["abs_search"]), obj_term(r["abs_model"]), cslist(r["hash_list"])))
+    if k == "pair":
+        b = r["b"]
+        if c["b"].get("build", {}).get("route") == "reload":
+            S = c["b"]
+            raised = "raised" in b
+            out.append("CReload %s %s %s" % (node_term(S["model"], S["pool"]), cbool(raised),
+                                             "ONone" if raised else obj_term(b["abs_model"])))
+            if not raised or b.get("msg", "").startswith("autofit.non_linear.search") or S["search"]["cls"] == "Drawer":
+                # the search alone
+                sraised = raised and S["search"]["cls"] == "Drawer"
+                if not raised:
+                    out.append("CReload %s false %s" % (search_term(S["search"]), obj_term(b["abs_search"])))
+                elif sraised:
+                    out.append("CReload %s true ONone" % search_term(S["search"]))
+        if c["b"].get("build", {}).get("route") in ("files", "fit") and "raised" not in b and b.get("abs_model"):
+            S = c["b"]
+            out.append("CReload %s false %s" % (node_term(S["model"], S["pool"]), obj_term(b["abs_model"])))
+    if k == "walk":
+        fl = abs_floats(r["abs"], set())
+        raised = "raised" in r
+        hl = [] if raised else r["hash_list"]
+        if all(ascii_ok(x) for x in hl):
+            out.append("CWalk %s %s %s %s" % (str_table(fl), obj_term(r["abs"]), cbool(raised), cslist(hl)))
+    if k == "round":
+        v = unhex(c["v"])
+        if "raised" in r:
+            out.append("CRound %s None" % cfloat(v))
+        else:
+            out.append("CRound %s (Some %s)" % (cfloat(v), cfloat(float(r["hash_list"][0]))))
+    return out
+
+
+def run(ctx):
+    ctx.rule = ("cases are (a) fit specifications = search class + all identifying settings + composition program (Model/Collection/"
+                "tuple/arithmetic priors, fixed values, shared priors, plain instances) + tag, (b) pairs of specifications that must have "
+                "the SAME identifier (other creation order/ids/labels, deepcopy, JSON reload, model.json/search.json written by "
+                "paths.save_all or by a real fit and read by SearchOutput, other variable names, non-identifying search settings, "
+                "sub-resolution float change) or a DIFFERENT one (one prior parameter/family, fixed value, class, sharing pattern, "
+                "attribute, key, operator, identifying search setting, search class, tag), (c) generic Python values for the walk, "
+                "(d) single floats for the rounding. A fit/pair is non-trivial when the model has >= 2 priors and a shared prior, "
+                "nesting >= 2, a tuple, arithmetic or a constant (search/tag pairs always); distinct = distinct abstract input")
+    ctx.trusted = [
+        "Coq 8.16.1 kernel incl. vm_compute; primitive floats are kernel primitives",
+        "translator part of harness/vcheck/c07.py + pyexpr2coq.py regenerating coq/C07/Gen.v (RESOLUTION, rounding formula, key filter, "
+        "join separator) from autofit/mapper/identifier.py on every run, fail closed",
+        "abstraction of live objects in harness/impl/c07_impl.py (raw __dict__/getattr walk recording class name, __identifier_fields__, "
+        "isinstance ModelObject, constructor arguments, __exclude_identifier_fields__) and the Coq literal printers",
+        "Python str(float)/repr is an oracle table (py_str); hashlib.md5 is a Section variable assumed injective; json round trip of floats",
+        "modelled not verified: CPython attribute/dict-order semantics, inspect.getfullargspec, frames seen by retrieve_name",
+    ]
+    ctx.assumptions = [
+        "md5 injective on the joined descriptions considered (Section hypothesis of the sensitivity theorems)",
+        "py_str injective on the rounded values considered (Section hypothesis; repr round-trips binary64)",
+        "binary64 rounding itself is compared bit-for-bit by correspondence (CRound); the >1e-8 separation theorem is over exact rationals",
+    ]
+    try:
+        infos = regenerate()
+        ctx.translated = infos
+        ctx.obligation("translator:Gen.v", "translator", True, "%d items" % len(infos))
+        translated = True
+    except T.TranslationError as e:
+        ctx.obligation("translator:Gen.v", "translator", False, str(e))
+        translated = False
+    if translated:
+        ctx.build()
+    cases = gen_cases(ctx)
+    corpus_dir = os.path.join(common.VERIF, "corpus", "C07")
+    if os.path.isdir(corpus_dir):
+        for f in sorted(os.listdir(corpus_dir)):
+            if f.endswith(".json"):
+                cases.insert(0, _json.load(open(os.path.join(corpus_dir, f)))["case"])
+    if ctx.replay:
+        rp = _json.load(open(ctx.replay))
+        if rp.get("case"):
+            cases = [rp["case"]]
+    # implementation, in parallel chunks
+    nchunk = max(1, min(common.NCPU, len(cases) // 40 or 1))
+    chunks = [cases[i::nchunk] for i in range(nchunk)]
+    outs = common.run_impl_parallel("c07_impl", [{"cases": ch} for ch in chunks], timeout=1500)
+    results = [None] * len(cases)
+    for ci, o in enumerate(outs):
+        if "__error__" in o:
+            ctx.obligation("impl-driver", "harness", False, o["__error__"][-800:])
+            return
+        for j, r in enumerate(o["results"]):
+            results[ci + j * nchunk] = r
+    # a second process with another hash seed and other ids: identifiers must be the same in every process
+    fit_idx = [i for i, c in enumerate(cases) if c["kind"] == "fit"][: (60 if ctx.tier != "thorough" else 400)]
+    second = common.run_impl("c07_impl", {"cases": [cases[i] for i in reversed(fit_idx)]}, timeout=1500,
+                             extra_env={"PYTHONHASHSEED": str(1 + ctx.rng.randrange(10 ** 6))})
+    if "__error__" in second:
+        ctx.obligation("impl-driver-second-process", "harness", False, second["__error__"][-800:])
+        return
+    second_by_idx = dict(zip(reversed(fit_idx), second["results"]))
+
+    coq_cases, coq_owner = [], []
+    for i, (c, r) in enumerate(zip(cases, results)):
+        labels = list(c.get("labels", []))
+        kind = c["kind"] + (":" + c["how"].split(":")[0] if c["kind"] == "pair" else "")
+        ctx.count_case(case_key(c), is_nontrivial(c), kind)
+        ctx.oracle["cases"] += 1
+        if c["kind"] in ("fit", "pair"):
+            for f in sorted(features(c.get("spec") or c["a"])):
+                ctx.hist("feature", f)
+            ctx.hist("search", (c.get("spec") or c["a"])["search"]["cls"])
+        if "exc" in r:
+            ctx.oracle["failures"] += 1
+            ctx.failure("oracle", "driver failed on the case: %s %s" % (r["exc"], r.get("msg")), c, classes=labels, impl=r)
+            continue
+        ok = r["ok"]
+        msg = oracle(c, ok)
+        if msg is None and i in second_by_idx:
+            o2 = second_by_idx[i].get("ok", {})
+            if o2.get("identifier") != ok.get("identifier"):
+                msg = "identifier differs between two processes (%s vs %s)" % (ok.get("identifier"), o2.get("identifier"))
+        if msg:
+            ctx.oracle["failures"] += 1
+            small = {k: (v if k not in ("abs_model", "abs_search", "abs") else "...") for k, v in ok.items()} if "a" not in ok else \
+                {s: {k: v for k, v in ok[s].items() if not k.startswith("abs")} for s in ("a", "b")}
+            ctx.failure("oracle", msg, c, classes=labels, impl=small)
+        for t in coq_terms(c, ok):
+            coq_cases.append(t)
+            coq_owner.append(i)
+        if i % 97 == 0:
+            sm = _json.dumps(case_key(c))
+            ctx.sample({"case": case_key(c) if len(sm) < 700 else {"kind": c["kind"], "how": c.get("how"), "size": len(sm)}}, limit=8)
+    if os.path.exists(os.path.join(common.COQ, "C07", "Model.vo")):
+        hdr = ctx.header(["Common.PyFloat", "Gen", "Model"])
+        bad, log = ctx.eval_cases(hdr, "case", "check_case", coq_cases, shard=max(20, len(coq_cases) // (2 * common.NCPU) + 1))
+        if bad:
+            for b in bad[:5]:
+                i = coq_owner[b]
+                c, ok = cases[i], results[i].get("ok")
+                ctx.failure("correspondence", "model and implementation disagree on a %s case: %s" % (c["kind"], coq_cases[b][:60]),
+                            c, classes=[], impl=None, broken={"kind": "correspondence", "name": "C07.check_case"},
+                            found_input=oracle(c, ok) is not None)
+    else:
+        ctx.obligation("correspondence:cases", "correspondence", False, "Model.vo not built")
+
+
+MANIFEST = {
+    "text": "Coq 8.16 model of the identifier walk (Identifier._add_value_to_hash_list over abstract object graphs, with RESOLUTION, the "
+            "rounding formula, the skipped-key rule and the join separator regenerated from the source on every run), of the object "
+            "shape of searches/models/priors and of the JSON reload; theorems for all objects: invariance under everything below "
+            "skipped keys (ids, labels, private state, creation order), reload invariance for the reloadable fragment, sensitivity "
+            "of the joined description to any visible single-position change in any context, separation of fixed values more than "
+            "1e-8 apart (exact arithmetic), with refutation witnesses for sharing, caller variable names, list-built collections, "
+            "fixed sub-models and the flat join; vm_compute correspondence with the running code token by token plus a direct oracle "
+            "on equal constructions (ids, copies, JSON, files written by save_all / a real fit, second process) and perturbations",
+    "note": "Trusted: Coq kernel + vm_compute, the translator, the live-object abstraction, str(float) and md5 as oracles/hypotheses. "
+            "Binary64 rounding is compared bit-for-bit by correspondence only; identifier_version config and md5 collisions are not covered.",
+    "technique": "machine-checked proof in Coq (translator-regenerated constants) + vm_compute correspondence + property oracle",
+}
